@@ -325,6 +325,13 @@ func fixedPrograms() []c03Prog {
 		Threads:  [][]hop{{{K: "clean", Cut: farFuture}}, {{K: "ev", S: 2, T: "USER_START"}, {K: "ev", S: 2, T: "CRED_ACQ"}}},
 		Epilogue: []hop{{K: "login", P: 1}, {K: "ev", S: 1, T: "USER_END"}}}
 	ps = append(ps, p)
+	// a stale login (its connection never got a session) waits under the pid; the
+	// cleanup that removes it races with the LOGIN record of a new process with
+	// that pid, whose own login line only arrives afterwards
+	p = c03Prog{Prelude: []hop{{K: "login", P: 1}},
+		Threads:  [][]hop{{{K: "clean", Cut: farFuture}}, {{K: "open", S: 1, P: 1}, {K: "ev", S: 1, T: "USER_START", P: 1}}},
+		Epilogue: []hop{{K: "login", P: 1}, {K: "ev", S: 1, T: "USER_END", P: 1}}}
+	ps = append(ps, p)
 	// 2 threads: held events flushed by the login while more events arrive
 	p = c03Prog{Prelude: []hop{{K: "open", S: 1, P: 1}, {K: "ev", S: 1, T: "USER_START"}},
 		Threads:  [][]hop{{{K: "login", P: 1}}, {{K: "ev", S: 1, T: "CRED_ACQ"}, {K: "ev", S: 1, T: "USER_CMD"}}},
@@ -455,6 +462,17 @@ func genC03Prog(rt *rapid.T) c03Prog {
 	case 3: // second login on its own thread
 		p.Threads = append(p.Threads, []hop{{K: "login", P: 2}}, []hop{{K: "open", S: 2, P: 2}})
 		p.Epilogue = append(p.Epilogue, hop{K: "ev", S: 2, T: "USER_END"})
+	}
+	if rapid.IntRange(0, 7).Draw(rt, "stalelogin") == 5 {
+		// a stale waiting login for pid 3, a cleanup racing with the LOGIN record of a
+		// new process with that pid; the new login arrives in the epilogue
+		p.Prelude = append(p.Prelude, hop{K: "login", P: 3})
+		p.Threads = append(p.Threads, []hop{{K: "clean", Cut: farFuture}}, []hop{{K: "open", S: 3, P: 3}, {K: "ev", S: 3, T: "USER_START", P: 3}})
+		p.Epilogue = append(p.Epilogue, hop{K: "login", P: 3}, hop{K: "ev", S: 3, T: "USER_END", P: 3})
+		if len(p.Threads) > 4 {
+			p.Threads = p.Threads[len(p.Threads)-4:]
+		}
+		return p
 	}
 	if rapid.IntRange(0, 5).Draw(rt, "stalecleanup") == 3 {
 		// a stale pending half (session 3) that only a cleanup thread can remove; its
